@@ -877,3 +877,59 @@ Proof.
   exists coll. split; [|exact Hreg].
   unfold convert_text_tr. rewrite Hp, Hc, Hn, Hlk. exact Hcv.
 Qed.
+
+(* ---------- tori with ANY orthonormal TR (C04's total torus law): also the
+   numpy.allclose snap zone ---------- *)
+Lemma torus_card_total_linked mn prm c u cp (f : pointR -> R) o b :
+  S4.rows_orthonormal b -> S4.norm2 u = 1 ->
+  (exists cd, to_surface_mcnp RS mn prm = Ok cd /\ to_ms cd = Some (M4.mkMS M4.KT c u cp None)) ->
+  (forall P, S4.msense (M4.mkMS M4.KT c u cp None) P = f (pt3 P)) ->
+  exists t a', card_tr_convert (C4.tr12 o b) mn prm = M4.Ok [(t, 1%Z)] /\
+    (forall p', S4.t4val t (S4.to_main o b p')
+                = S4.msense (M4.mkMS M4.KT (S4.to_main o b c) a' cp None) (S4.to_main o b p')) /\
+    S4.norm2 a' = 1 /\
+    (a' = F4.tvec b u \/ S4.norm2 (S4.cross a' (F4.tvec b u)) <= O4.tiny) /\
+    (a' = F4.tvec b u -> forall p', S4.t4val t (S4.to_main o b p') = f (pt3 p')).
+Proof.
+  intros Hb Hu (cd & H1 & H2) Hf.
+  assert (Hcv : card_tr_convert (C4.tr12 o b) mn prm
+                = M4.tr_convert RS (C4.tr12 o b) (M4.mkMS M4.KT c u cp None)).
+  { unfold card_tr_convert, card_tr_convert_g. rewrite H1. fold to_ms. rewrite H2. reflexivity. }
+  destruct (O4.frame_transform_torus_total o b c u cp None Hb Hu) as (t & a' & Ht & Hv & Hn & Hc & He).
+  exists t, a'. split; [rewrite Hcv; exact Ht|]. split; [exact Hv|]. split; [exact Hn|].
+  split; [exact Hc|]. intros Ea p'. rewrite (He Ea p'). apply Hf.
+Qed.
+
+(* TX / TY / TZ with any orthonormal TR: ONE torus is always written; it is the
+   torus with the moved centre and the card's radii about an axis a' that is
+   the moved axis itself, or (numpy.allclose snap) a coordinate axis with
+   |a' x moved axis|^2 <= 2e-16; when a' is the moved axis its equation at the
+   moved point is exactly the card's at p' *)
+Theorem torus_tr_total_linked x0 y0 z0 A B C o b :
+  S4.rows_orthonormal b ->
+  let W := fun mn u (f : pointR -> R) =>
+    exists t a', card_tr_convert (C4.tr12 o b) mn [x0; y0; z0; A; B; C] = M4.Ok [(t, 1%Z)] /\
+      (forall p', S4.t4val t (S4.to_main o b p')
+                  = S4.msense (M4.mkMS M4.KT (S4.to_main o b (V4.mkV x0 y0 z0)) a' [A; B; C] None)
+                              (S4.to_main o b p')) /\
+      S4.norm2 a' = 1 /\
+      (a' = F4.tvec b u \/ S4.norm2 (S4.cross a' (F4.tvec b u)) <= O4.tiny) /\
+      (a' = F4.tvec b u -> forall p', S4.t4val t (S4.to_main o b p') = f (pt3 p')) in
+  W M_TX (V4.mkV 1 0 0) (fM_tx RS x0 y0 z0 A B C) /\
+  W M_TY (V4.mkV 0 1 0) (fM_ty RS x0 y0 z0 A B C) /\
+  W M_TZ (V4.mkV 0 0 1) (fM_tz RS x0 y0 z0 A B C).
+Proof.
+  intros Hb W. unfold W. split; [|split].
+  - apply (torus_card_total_linked _ _ (V4.mkV x0 y0 z0) (V4.mkV 1 0 0) [A; B; C] _ o b Hb).
+    + unfold S4.norm2, S4.dot. cbn. ring.
+    + eexists. split; reflexivity.
+    + apply tx_msense.
+  - apply (torus_card_total_linked _ _ (V4.mkV x0 y0 z0) (V4.mkV 0 1 0) [A; B; C] _ o b Hb).
+    + unfold S4.norm2, S4.dot. cbn. ring.
+    + eexists. split; reflexivity.
+    + apply ty_msense.
+  - apply (torus_card_total_linked _ _ (V4.mkV x0 y0 z0) (V4.mkV 0 0 1) [A; B; C] _ o b Hb).
+    + unfold S4.norm2, S4.dot. cbn. ring.
+    + eexists. split; reflexivity.
+    + apply tz_msense.
+Qed.
